@@ -172,6 +172,15 @@ def _sign_facts(state):
     return facts
 
 
+def _formula_size(f):
+    op = f[0]
+    if op in ("lt", "le", "eq"):
+        return len(f[1].n) + (len(f[1].d) if f[1].d is not None else 0)
+    if op in ("true", "false"):
+        return 0
+    return sum(_formula_size(g) for g in f[1:])
+
+
 def _zero_set_contradictory(state, new_key):
     """The polynomials pinned to zero on this path (plus the new one) generate 1 by a combination
     1 = sum c_i p_i + sum c_ij p_i p_j  (c rational, verified symbolically modulo the rewrite rules):
@@ -209,6 +218,9 @@ def decider(state, formula, timeout_ms=2000):
             allowed = known & (atom[1] if val else ({-1, 0, 1} - atom[1]))
             if allowed == {0} and _zero_set_contradictory(state, atom[0]):
                 pruned.add(val)
+    if _formula_size(formula) > 4000:
+        # a comparison between very large polynomials: asking the solver costs more than exploring both branches (which is sound)
+        return [v for v in (True, False) if v not in pruned]
     feas = []
     for val in (True, False):
         if val in pruned:
